@@ -113,6 +113,14 @@ func FieldBytes(t *rapid.T, k spec.Kind, bad bool, label string) []byte {
 			case 1:
 				b[0] = 0x20
 				return b
+			case 2:
+				// next to the 'no date/time' encodings: the same date with a time of day, the same time on the neighbouring days
+				x := rapid.SampledFrom([]spec.CivilDT{{Y: 1, M: 1, D: 1}, {Y: 1, M: 1, D: 2}, {Y: 1, M: 2, D: 1}, {Y: 2, M: 1, D: 1}, {Y: 2000, M: 1, D: 1}, {Y: 1, M: 12, D: 31}, {Y: 100, M: 1, D: 1}}).Draw(t, label+".near-zero")
+				if rapid.Bool().Draw(t, label+".near-zero.time") || (x.Y == 1 && x.M == 1 && x.D == 1) {
+					x.H, x.Mi, x.S = rapid.SampledFrom([]int{0, 0, 1, 12, 23}).Draw(t, label+".h"), rapid.SampledFrom([]int{0, 0, 1, 59}).Draw(t, label+".mi"), rapid.SampledFrom([]int{0, 1, 59}).Draw(t, label+".s")
+				}
+				spec.PutDateTime(b, x)
+				return b
 			}
 			c := Civil(t, label)
 			spec.PutDateTime(b, spec.CivilDT{Y: c.Y, M: c.M, D: c.D, H: rapid.IntRange(0, 23).Draw(t, label+".h"), Mi: rapid.IntRange(0, 59).Draw(t, label+".mi"), S: rapid.IntRange(0, 59).Draw(t, label+".s")})
